@@ -2,7 +2,7 @@
    Statements only; proofs in proofs/ManagerC01.v. *)
 From Coq Require Import List Bool Arith ZArith NArith Lia.
 From XD Require Import lib.ListAux lib.Toposort model.Manager model.ManagerData
-  proofs.ManagerIdx proofs.ManagerInv proofs.ManagerTrace proofs.ManagerDataInv proofs.Store proofs.ManagerC01 proofs.ManagerOrder.
+  proofs.ManagerIdx proofs.ManagerInv proofs.ManagerTrace proofs.ManagerDataInv proofs.Store proofs.ManagerC01 proofs.ManagerOrder proofs.ManagerExtra.
 Import ListNotations.
 Local Open Scope nat_scope.
 
@@ -90,6 +90,21 @@ Theorem C01_order_independent_partial : forall (m : dmgr) s r x sd1 so1 sd2 so2 
              nget (d_st s1) q = nget (d_st s2) q).
 Proof. exact plain_assign_order_independent. Qed.
 
+(* "each target of a ... linear-knob task holds what that task prescribes": a LinearKnob that
+   runs to completion adds weight * (new source value - source value at its previous run) to each of
+   its (non-overlapping, numeric) targets, remembers the new source value and touches nothing else *)
+Theorem C01_linear_knob : forall (t : @task path action) s src wts v p,
+  t_act t = AKnob src wts -> d_fault s = None ->
+  nget (d_st s) src = Some (Leaf v) -> aget path_eqb (t_id t) (d_prev s) = Some p ->
+  (forall w tg, In (w, tg) wts -> exists z, nget (d_st s) tg = Some (Leaf z)) ->
+  ForallOrdPairs (fun a b => overlap (snd a) (snd b) = false) wts ->
+  exists s', exec t s = (s', None) /\
+    (forall w tg z, In (w, tg) wts -> nget (d_st s) tg = Some (Leaf z) ->
+                    nget (d_st s') tg = Some (Leaf (z + w * (v - p))%Z)) /\
+    aget path_eqb (t_id t) (d_prev s') = Some v /\
+    (forall q, (forall w tg, In (w, tg) wts -> overlap tg q = false) -> nget (d_st s') q = nget (d_st s) q).
+Proof. exact knob_exec_spec. Qed.
+
 (* The unrestricted statement is false of the faithful model: siblings of one nested
    object, defined n.x = a*2; n.z = n.y*3; n.y = n.x+1, then a = 5.  With the set
    iteration orders the implementation used under PYTHONHASHSEED=0 (replayed here),
@@ -153,6 +168,7 @@ Qed.
 Print Assumptions C01_step_partial.
 Print Assumptions C01_history_partial.
 Print Assumptions C01_run_order.
+Print Assumptions C01_linear_knob.
 Print Assumptions C01_order_independent_partial.
 Print Assumptions C01_refuted_nested_siblings.
 Print Assumptions C01_nonvacuous.
